@@ -145,10 +145,8 @@ def build_cases(rng, tier, ws):
         out.append([("zvariant", False, [rng.choice(zv)])])                               # a single zvariant feature
         c = rng.choice(small)
         out.append([(c, rng.random() < 0.5, sample(sorted(f for f in libs[c]["features"] if f != "default"), 0.5))])
-        if rng.random() < 0.5:                                                            # all features of one big crate
-            out.append([("zbus", True, zb)])
-        else:
-            out.append([("zvariant", True, zv)])
+        out.append([("zbus", True, zb)])                                                  # all features of the big crates
+        out.append([("zvariant", True, zv)])
         out.append([("zvariant", rng.random() < 0.5, sample(zv, 0.4))])                   # powerset samples
         out.append([("zbus", False, sorted(set(sample(zb, 0.3)) | {rng.choice(["tokio", "async-io"])}))])
         out.append(random_sel(rng, libs, kmax=3))                                         # a mixed downstream crate
@@ -422,6 +420,11 @@ def custom_run(pid, tier, seed, replay=None):
                 log("[C35] dropped %d cases the current graph does not define, e.g. %r" % (len(bad), bad[0]))
                 tcases = [c for c in tcases if c not in bad]
                 bcases = [c for c in bcases if c not in bad]
+            sample_idx = sorted(rng.sample(range(len(tcases)), min(6 if tier == "quick" else 25, len(tcases))))
+            xs = [tcases[i] for i in sample_idx] + bcases[:4]
+            okx, outx = core.vm_crosscheck(pid, RUN_MODULE, xs, [mt[c] for c in xs])
+            if not okx:
+                tool_errors.append("extracted model and vm_compute disagree on the sample: " + outx[-400:])
             scr = Scratch()
             # ---- K1: cargo's own resolution
             ti = run_trees(scr, tcases, ws, 150 if tier == "quick" else 1200)
